@@ -139,6 +139,33 @@ func runC08(x *simkit.Exec) {
 	detail := "blocks=" + ds.describe()
 	gwSets := extSetsOf(ds.Blocks)
 	tsdbSets := extSetsOf(ds.Blocks[:1])
+	// reconfigurations of the TSDB store's external labels between rounds of the same requests: a value
+	// changes, a label disappears, a label appears
+	var newExts []map[string]string
+	for r, n := 0, x.Draw("tsdb.reconfigs", 3); r < n; r++ {
+		cur := ds.Blocks[0].Ext
+		if r > 0 {
+			cur = newExts[r-1]
+		}
+		next := map[string]string{}
+		for k, v := range cur {
+			next[k] = v
+		}
+		names := simkit.SortedKeys(next)
+		switch x.Draw("tsdb.reconfig.kind", 3) {
+		case 0:
+			if len(names) > 0 {
+				next[names[x.Draw("tsdb.reconfig.name", len(names))]] = valuePool[x.Draw("tsdb.reconfig.val", len(valuePool))]
+			}
+		case 1:
+			if len(names) > 1 {
+				delete(next, names[x.Draw("tsdb.reconfig.name", len(names))])
+			}
+		default:
+			next[[]string{"ext", "replica", "zz", "a"}[x.Draw("tsdb.reconfig.new", 4)]] = valuePool[x.Draw("tsdb.reconfig.val", len(valuePool))]
+		}
+		newExts = append(newExts, next)
+	}
 
 	runClients(x, f, "c08", cfg, nclients, faults, func(s *simkit.Sim, g *gateway) func() {
 		// the TSDB block is opened and closed inside the bubble (its WaitGroup belongs to the bubble)
@@ -148,25 +175,36 @@ func runC08(x *simkit.Exec) {
 		}
 		s.Go("tsdb-client", func() {
 			ctx := context.Background()
-			for qi, q := range pool {
-				if s.Park(ctx, s.OpID("tsdb-client", "begin", fmt.Sprint(qi))) != nil {
-					return
+			sets := tsdbSets
+			for round := 0; round < 1+len(newExts); round++ {
+				if round > 0 {
+					// the store's external labels are reconfigured (receive does this when a hashring
+					// configuration is reloaded); from here on the new ones count
+					tsdbStore.SetExtLset(labels.FromMap(newExts[round-1]))
+					sets = []map[string]string{newExts[round-1]}
+					s.Probe("c08.tsdb_external_labels_reconfigured")
 				}
-				resp, _ := callSeries(ctx, tsdbStore, q)
-				if resp.Err != nil {
-					s.Probe("c08.tsdb_series_rejected")
-					continue
+				tsdbSets := sets
+				for qi, q := range pool {
+					if s.Park(ctx, s.OpID("tsdb-client", "begin", fmt.Sprint(round), fmt.Sprint(qi))) != nil {
+						return
+					}
+					resp, _ := callSeries(ctx, tsdbStore, q)
+					if resp.Err != nil {
+						s.Probe("c08.tsdb_series_rejected")
+						continue
+					}
+					split := false
+					seen := map[string]int{}
+					for _, gs := range resp.Series {
+						seen[gs.Labels.String()]++
+						split = split || seen[gs.Labels.String()] > 1
+					}
+					if split {
+						s.Probe("c08.tsdb_series_split_over_frames")
+					}
+					checkExternalLabels(s, "tsdb-store", tsdbSets, q, resp, fmt.Sprintf("max bytes per frame %d, external labels now %v (round %d)\n%s", frame, tsdbSets, round, detail))
 				}
-				split := false
-				seen := map[string]int{}
-				for _, gs := range resp.Series {
-					seen[gs.Labels.String()]++
-					split = split || seen[gs.Labels.String()] > 1
-				}
-				if split {
-					s.Probe("c08.tsdb_series_split_over_frames")
-				}
-				checkExternalLabels(s, "tsdb-store", tsdbSets, q, resp, fmt.Sprintf("max bytes per frame %d\n%s", frame, detail))
 			}
 		})
 		return closeTSDB
